@@ -2,10 +2,13 @@ package main
 
 import (
 	"fmt"
+	"go/types"
 	"os"
 	"os/exec"
 	"path/filepath"
 	"strings"
+
+	"golang.org/x/tools/go/ssa"
 )
 
 type replayResult struct {
@@ -15,7 +18,42 @@ type replayResult struct {
 	Output    string `json:"output"`
 }
 
-func (e *Engine) lemmaObligations(props map[string]bool) ([]*Obligation, error) { return nil, nil }
+// lemmaObligations turns the lemmas of the contract files into obligations: closed formulas over
+// spec functions, proved by the solver (universal quantifiers are skolemised).
+func (e *Engine) lemmaObligations(props map[string]bool) (obls []*Obligation, err error) {
+	defer func() {
+		if r := recover(); r != nil {
+			if u, ok := r.(unsupportedErr); ok {
+				err = fmt.Errorf("lemma: %s", u.msg)
+				return
+			}
+			panic(r)
+		}
+	}()
+	for _, lm := range e.lemmas {
+		has := props == nil
+		for _, p := range lm.Props {
+			if props[p] {
+				has = true
+			}
+		}
+		if !has {
+			continue
+		}
+		tr := &FnTrans{eng: e, smt: newSmt(e, lm.Arith == "int"), name: "lemma." + lm.Name, props: lm.Props, oblCnt: map[string]int{},
+			vals: map[ssa.Value]Val{}, lets: map[string]*Expr{}, siteByAlias: map[string]*Site{}, siteInstr: map[string]ssa.CallInstruction{},
+			ghostSites: map[string]*Site{}, usedSpecs: map[string]bool{}, abstracted: map[string]int{}, heapAnc: map[string][]*frameFact{}, frameDone: map[string]bool{},
+			loopInfo: map[int]string{}, usedGlobalInvs: map[string]Clause{}, escCache: map[*ssa.Alloc]bool{}, ifaceTests: map[string]types.Type{}}
+		tr.entryHeap = tr.smt.newRootHeap()
+		env := &Env{tr: tr, vars: map[string]Val{}, heap: tr.entryHeap, oldHeap: tr.entryHeap, quiet: true}
+		goal := env.evalGoal(lm.C.E)
+		o := &Obligation{Name: "lemma." + lm.Name, Kind: "lemma", Fn: tr.name, Props: lm.Props, Guard: "true", Goal: goal,
+			NDecl: len(tr.smt.decls), NAssume: len(tr.assumes), Expect: "unsat", Clause: lm.C.Src, tr: tr, Pos: fmt.Sprintf("%s:%d", lm.C.File, lm.C.Line)}
+		tr.obls = append(tr.obls, o)
+		obls = append(obls, o)
+	}
+	return obls, nil
+}
 
 // overlayFromPatch applies a unified diff to copies of the files it touches and returns the patched
 // contents as a go/packages overlay; /repo itself is not modified.
